@@ -149,6 +149,14 @@ func ruleDeltaAtomic(c *Ctx, ix *PkgIndex, rule string) {
 		if a.ownMu == "" {
 			mu = varKey(recv) + ".lastValue.Mutex"
 		}
+		// the function analysed may be the embedded type's method this one forwards to: the mutex path is relative to its receiver
+		if rn := namedOf(recv.Type()); rn != nil && rn.Obj().Name() != a.typ {
+			for _, b := range aggSpecs {
+				if b.typ == rn.Obj().Name() && b.ownMu != "" {
+					mu = varKey(recv) + b.ownMu
+				}
+			}
+		}
 		bad := ""
 		for _, e := range empt {
 			// at least one read of the map dominates the emptying
